@@ -179,7 +179,10 @@ class Purity:
     def check_free_roots(self, r: Rule) -> None:
         """Nested helpers writing an enclosing local: that local must be a fresh allocation in the enclosing function."""
         ctx = self.ctx
+        nested = 0
         for q, f, s in self.funcs("all"):
+            if f.parent is not None:
+                nested += 1
             for e in s.effects:
                 root = root_of(e.target)
                 if root[0] == "free":
@@ -191,6 +194,9 @@ class Purity:
                     if v is None or root_of(v)[0] != "fresh":
                         fail(r, ctx, f, e.node, f"{q} writes `{root[1]}` of the enclosing function, which is not a fresh allocation there "
                                                 f"({show(v)[:80] if v else 'unknown'})")
+        # the rule quantifies over nested functions: with none left in the package it holds trivially (and says so), which is
+        # different from not seeing the ones that exist
+        r.inst(f"{nested} nested function(s) examined for writes to enclosing locals", nontrivial=False)
 
     # ---- W3 mutable defaults
     def check_defaults(self, r: Rule) -> None:
